@@ -54,7 +54,24 @@ static int verif_rt_remove(void *table, const char *key, void **val)
 	return HASHTABLE_INVALIDENTRY;
 }
 
-int snprintf(char *str, size_t size, const char *fmt, ...) { (void)str; (void)size; (void)fmt; return 1; }
+/* snprintf stub: records the counter argument of the routed-id formats "%x_%p" / "%s_%x_%p"; writes "r" */
+static unsigned verif_fmt_calls; static unsigned verif_fmt_uuid[4]; static const void *verif_fmt_addr[4];
+int snprintf(char *str, size_t size, const char *fmt, ...)
+{
+	va_list ap;
+	va_start(ap, fmt);
+	if (fmt[1] == 's') (void)va_arg(ap, const char *);
+	unsigned u = va_arg(ap, unsigned);
+	const void *a = va_arg(ap, const void *);
+	va_end(ap);
+	if (str != NULL) {
+		if (verif_fmt_calls < 4) { verif_fmt_uuid[verif_fmt_calls] = u; verif_fmt_addr[verif_fmt_calls] = a; }
+		verif_fmt_calls++;
+		if (size > 0) str[0] = (size > 1) ? 'r' : 0;
+		if (size > 1) str[1] = 0;
+	}
+	return 2;
+}
 /* response builders: recording stubs (their id/payload behaviour is proved in resp.*): the object they return
  * remembers which id it answers, whether it is an error, and owns the payload */
 #include "response.h"
@@ -328,4 +345,23 @@ void h_rt_setup(void)
 	VERIF_COVER(r == -1 && verif_timer_inits == 1 && verif_timer_init_ret == 0 && verif_started == 1, "timer start failed");
 	VERIF_COVER(r == -1 && has_timeout && verif_to_ret == 0, "illegal timeout");
 	VERIF_COVER(r == -1 && verif_timer_inits == 1 && verif_timer_init_ret == 0 && verif_started == 0, "routing table full");
+}
+
+/* ---- rt.alloc: routed request ids are unique among the requests in flight --------------------------------
+ * the id is formatted from (original id, a counter, the requester's address): two records allocated one after
+ * the other must be formatted with different counter values, whatever mix of requests with and without an id */
+void h_rt_alloc(void)
+{
+	cJSON oid; oid.type = cJSON_String; oid.valuestring = "x"; oid.string = NULL; oid.child = NULL; oid.next = NULL;
+	bool id1 = nondet_bool(), id2 = nondet_bool();
+	struct peer *req = &verif_c1;
+	struct routing_request *a = alloc_routing_request(req, &verif_owner, id1 ? &oid : NULL);
+	struct routing_request *b = alloc_routing_request(req, &verif_owner, id2 ? &oid : NULL);
+	__CPROVER_assume(a != NULL && b != NULL);
+	__CPROVER_assert(verif_fmt_calls == 2 && verif_fmt_addr[0] == req && verif_fmt_addr[1] == req, "C03.alloc.id-names-the-requester");
+	__CPROVER_assert(verif_fmt_uuid[0] != verif_fmt_uuid[1], "C03.alloc.consecutive-requests-get-different-counter-values");
+	__CPROVER_assert(a->requesting_peer == req && a->owner_peer == &verif_owner && (a->origin_request_id != NULL) == id1 && (a->origin_request_id == NULL || a->origin_request_id != &oid), "C03.alloc.record-names-caller-owner-and-a-copy-of-the-original-id");
+	cJSON_Delete(a->origin_request_id); cJSON_Delete(b->origin_request_id); free(a); free(b);
+	VERIF_COVER(!id1 && !id2, "two requests without id");
+	VERIF_COVER(id1 && !id2, "mixed");
 }
